@@ -73,3 +73,7 @@ impl NtpClock for NtpClockWrapper {
         })
     }
 }
+
+#[cfg(all(test, pendulum_project_ntpd_rs_verif))]
+#[path = "/verif/harness/ntpd/probe_clock.rs"]
+pub(crate) mod verif_probe;
